@@ -51,6 +51,14 @@ class MemDUT(Module):
                     init = [sum(((0xE0 | (w*(sw//8) + b)) & 0xFF) << (8*b) for b in range(sw//8)) for w in range(nbytes//(sw//8))]
                 self.submodules.sram = wishbone.SRAM(nbytes, bus=s, init=init)
                 self.slave = None
+        elif kind == "sram" and p.get("as_memory"):
+            # the caller hands over its own Memory (optionally tagged `bus_read_only`) instead of a size
+            ro = p.get("read_only")
+            mem = Memory(mw, p["nbytes"]//(mw//8), init=[0x5A5A5A5A & ((1 << mw) - 1)]*(p["nbytes"]//(mw//8)) if ro else None)
+            if ro:
+                mem.bus_read_only = True
+            self.specials += mem
+            self.submodules.dut = wishbone.SRAM(mem, bus=self.master)
         elif kind == "sram":
             self.submodules.dut = wishbone.SRAM(p["nbytes"], bus=self.master, read_only=p.get("read_only"),
                                                 init=[0x5A5A5A5A & ((1 << mw) - 1)]*(p["nbytes"]//(mw//8)) if p.get("read_only") else None)
@@ -338,6 +346,8 @@ reg("Converter(8->8)", "quick", kind="conv", mw=8, sw=8, adrs=(0, 1), nbytes=2)
 reg("SRAM(16bit,rw)", "quick", kind="sram", mw=16, adrs=(0, 1), nbytes=4)
 reg("SRAM(32bit,rw)", "quick", kind="sram", mw=32, adrs=(0, 1), sels=SEL32, nbytes=8, marks=(1,))
 reg("SRAM(16bit,read_only)", "quick", kind="sram", mw=16, adrs=(0, 1), nbytes=4, read_only=True)
+reg("SRAM(16bit,own Memory)", "quick", kind="sram", mw=16, adrs=(0, 1), nbytes=4, as_memory=True)
+reg("SRAM(16bit,own Memory,bus_read_only)", "quick", kind="sram", mw=16, adrs=(0, 1), nbytes=4, read_only=True, as_memory=True)
 BURSTS = tuple((we, a, kind, n) for we in (0, 1) for (a, kind, n) in ((0, "lin", 2), (1, "lin", 3), (0, "const", 2), (1, "wrap4", 3), (3, "wrap4", 2), (2, "wrap4", 4)))
 reg("SRAM(8bit,bursting)", "quick", kind="sram", mw=8, adrs=(0, 1), nbytes=8, bursting=True, bursts=BURSTS)
 reg("SRAM(16bit,bursting)", "quick", kind="sram", mw=16, adrs=(0, 1), sels=(0b01, 0b11), nbytes=32, bursting=True, marks=(1,),
